@@ -60,11 +60,18 @@ use crate::values::string::repr::string_repr;
 /// The result of calling `type()` on strings.
 pub const STRING_TYPE: &str = "string";
 
+/// Type of the lazily-initialized hash cell.
+#[cfg(not(starlark_verif))]
+type HashCell = atomic::AtomicU32;
+/// Type of the lazily-initialized hash cell (with scheduling points).
+#[cfg(starlark_verif)]
+type HashCell = crate::verif::sync::AtomicU32;
+
 #[repr(C)] // We want the body to come after len
 #[derive(ProvidesStaticType, Allocative)]
 pub(crate) struct StarlarkStrN<const N: usize> {
     // Lazily-initialized cached hash code.
-    pub(crate) hash: atomic::AtomicU32,
+    pub(crate) hash: HashCell,
     // Length in bytes.
     pub(crate) len: u32,
     // Followed by an unsized block, meaning this type is unsized.
@@ -140,7 +147,7 @@ impl StarlarkStr {
         assert!(len as u32 as usize == len, "len overflow");
         StarlarkStr {
             str: StarlarkStrN {
-                hash: atomic::AtomicU32::new(hash.get()),
+                hash: HashCell::new(hash.get()),
                 len: len as u32,
                 body: [],
             },
